@@ -101,6 +101,9 @@ func C16(t *rapid.T) *world.Scenario {
 		}
 		sc.Threads = append(sc.Threads, th)
 	}
+	if Pct(t, "deferredlog", 10) {
+		sc.Logger = "deferred" // an asynchronous slog handler: records are resolved at the end
+	}
 	if Pct(t, "rawkeys", 8) {
 		// Some callers write a field into the header map under a key of their own spelling
 		// ("!": not canonical). Which variant such a request selects is not judged (Go code
